@@ -840,3 +840,47 @@ class BNRemoveCpds(Contract):
 
 
 register(BNRemoveCpds())
+
+
+class MNAddFactors(Contract):
+    """MarkovNetwork.add_factors(factor): ValueError exactly when the factor mentions a variable that is not a node (nothing changes);
+    otherwise the factor list holds the old factors and the new one; the graph is never modified."""
+    file = "pgmpy/models/MarkovNetwork.py"
+    qual = "MarkovNetwork.add_factors"
+
+    fvars = z3.Function("cpd_variables", Opaque, set_sort(Atom))
+
+    def variants(self, ex):
+        g = new_graph("MarkovNetwork", "mn", directed=False, latents=False)
+        g.fields["factors"] = Coll("list", Opaque, z3.Const("factors", set_sort(Opaque)))
+        yield "one-factor", {"self": g}, {"positional": [g, Scalar(z3.Const("new_factor", Opaque), "CPD")]}
+
+    def pre(self, ex, st, args):
+        return wf_graph(args["self"])
+
+    def snapshot(self, ex, st, args):
+        old = graph_snapshot(args["self"])
+        old["factors"] = args["self"].fields["factors"].mem
+        return old
+
+    def havoc(self, ex, st, args):
+        L = args["self"].fields["factors"]
+        L.mem, L.items, L.len_z, L.seq = fresh("factors_after", set_sort(Opaque)), None, None, None
+
+    def raises(self, ex, st, args):
+        f = st.env["factors"].items[0].z
+        x = fresh("x", Atom)
+        return {"ValueError": z3.Exists([x], z3.And(self.fvars(f)[x], z3.Not(N_(args["self"], x))))}
+
+    def on_raise(self, ex, st, args, old, exc):
+        y = fresh("y", Opaque)
+        return z3.And(graph_unchanged(args["self"], old), z3.ForAll([y], args["self"].fields["factors"].mem[y] == old["factors"][y]))
+
+    def post(self, ex, st, args, old, result):
+        f = st.env["factors"].items[0].z
+        y = fresh("y", Opaque)
+        return {"content": z3.ForAll([y], args["self"].fields["factors"].mem[y] == z3.Or(old["factors"][y], y == f)),
+                "graph-untouched": graph_unchanged(args["self"], old)}
+
+
+register(MNAddFactors())
